@@ -143,7 +143,6 @@ extern "C" void w_FixVariable(PS_PARAMS, int m_j, int m_old_j, double m_val, dou
    H h; PS_BIND(h) h.m_j = m_j; h.m_old_j = m_old_j; h.m_val = m_val; h.m_obj = m_obj; h.m_lower = m_lower; h.m_upper = m_upper;
    h.m_correctIdx = m_correctIdx != 0;
    PS_SVEC(h.m_col, col_idx, col_val, col_n, nR)
-   gp_i1 = col_idx;
    h.body();
 }
 #endif
@@ -180,7 +179,6 @@ extern "C" void w_ForceConstraint(PS_PARAMS, int m_i, int m_old_i, double m_lRhs
    DSVectorBase<R> cols[CAP];
    PS_SVARR(cols, cols_idx, cols_val, cols_n, nR)
    h.m_cols.data = cols; h.m_cols.thesize = row_n;
-   gp_i1 = row_idx;
    h.body();
 }
 #endif
@@ -209,7 +207,6 @@ extern "C" void w_FreeZeroObjVariable(PS_PARAMS, int m_j, int m_old_j, int m_old
    DSVectorBase<R> rows[CAP];
    PS_SVARR(rows, rows_idx, rows_val, rows_n, nC)
    h.m_rows.data = rows; h.m_rows.thesize = col_n;
-   gp_i1 = col_idx;
    h.body();
 }
 #endif
